@@ -81,7 +81,8 @@ func (P *Prog) ifaceContractsFor(fn *ssa.Function) []*Contract {
 		if own := P.contractFor(fn); own != nil && own.Props["noiface:"+name] {
 			continue
 		}
-		if types.Implements(rt, iface) {
+		_, rtIsPtr := rt.(*types.Pointer)
+		if types.Implements(rt, iface) || (!rtIsPtr && types.Implements(types.NewPointer(rt), iface)) {
 			if _, isPtr := rt.(*types.Pointer); !isPtr && contractUsesGhostOnThis(c) {
 				continue // typestate ghosts are attached to object identity; value receivers have none
 			}
